@@ -142,7 +142,30 @@ func decodeNumber(b []byte) (interface{}, error) {
 	return out, nil
 }
 
-var nastyTypes = []string{"plain", "with \"quote\"", "back\\slash", "new\nline", "tab\t", "ünï 日本", "<tag>&", "", "a/b:c", " "}
+var nastyTypes = []string{"plain", "with \"quote\"", "back\\slash", "new\nline", "tab\t", "ünï 日本", "<tag>&", "", "a/b:c", " ",
+	"bel\x07", "vt\x0b", "ff\x0c", "nul\x00mid", "us\x1f", "del\x7f", "nel\u0085", "tag\U000e0001", "zwj\u200d", "bom\ufeff", "sep\u2028\u2029", "esc\x1b[0m"}
+
+// genType draws an event type: a nasty literal or random runes incl. control characters (valid UTF-8).
+func genType(r *rt.Rand) string {
+	if r.Intn(3) > 0 {
+		return rt.Pick(r, nastyTypes)
+	}
+	n := r.Range(1, 8)
+	rs := make([]rune, n)
+	for i := range rs {
+		switch r.Intn(4) {
+		case 0:
+			rs[i] = rune(r.Intn(0x20)) // C0 control
+		case 1:
+			rs[i] = rune(0x7f + r.Intn(0x22)) // DEL and C1 controls
+		case 2:
+			rs[i] = rune('a' + r.Intn(26))
+		default:
+			rs[i] = rune(0x2000 + r.Intn(0x70)) // general punctuation, separators, format characters
+		}
+	}
+	return string(rs)
+}
 
 // snapshotValue renders a payload for before/after comparison (channels and funcs by pointer).
 func snapshotValue(v interface{}) string { return fmt.Sprintf("%#v", v) }
